@@ -522,10 +522,12 @@ class MasterDriver:
     def gen_manifest(self):
         rng = self.rng
         H = self.H
-        if H.affinities and rng.random() < 0.6:
-            aff = rng.choice(sorted(H.affinities))
+        retired = [a for a in sorted(H.affinities) if H.affinities[a] and
+                   not any(za['man']['affinity'] == a for za in self.Z['apps'].values())]
+        if (retired and rng.random() < 0.3) or (H.affinities and rng.random() < 0.6):
+            aff = rng.choice(retired) if retired and rng.random() < 0.5 else rng.choice(sorted(H.affinities))
             limits = H.affinities[aff]
-            if limits and rng.random() < 0.5 and not any(za['man']['affinity'] == aff for za in self.Z['apps'].values()):
+            if limits and rng.random() < 0.7 and not any(za['man']['affinity'] == aff for za in self.Z['apps'].values()):
                 # every instance of the affinity is gone: the application comes back with its limits on other levels
                 vals = list(limits.values())
                 rng.shuffle(vals)
